@@ -49,6 +49,7 @@ void vx_focus_end(void);
 void vx_expect_crash(void);           // a trap from here on is the expected outcome
 void vx_fail(const char *fmt, ...) __attribute__((format(printf,1,2), noreturn));
 int  vx_self(void);                   // scheduler thread index of the caller
+void vx_note(const char *note);       // what the calling thread is doing (shown in stuck witnesses)
 
 // virtual clocks (ns).  All advance at the same rate from distinct bases.
 #define VX_BASE_MONOTONIC  (10ull * 1000000000ull)
